@@ -371,20 +371,31 @@ impl CaseEngine for C24 {
             let mut last_probe = probe(&admin).await?;
             for step in 0..requests {
                 // ---- choose actor ----
+                let mut dead_pick = 0usize;
                 let actor = match rng.below(14) {
                     0 => Actor::NoToken,
                     1 => Actor::Garbage,
                     2 => Actor::Admin,
-                    3 if !dead.is_empty() => dead[rng.usize(dead.len())].1.clone(),
+                    3 if !dead.is_empty() => {
+                        // recent ones preferred: each dead token is tried soon after it died
+                        dead_pick = if rng.chance(1, 2) { dead.len() - 1 } else { rng.usize(dead.len()) };
+                        dead[dead_pick].1.clone()
+                    }
                     _ => {
                         let live: Vec<&String> = tokens.keys().collect();
                         if live.is_empty() { Actor::Admin } else { Actor::User(live[rng.usize(live.len())].clone()) }
                     }
                 };
+                let quoted = rng.chance(1, 3);
+                if quoted {
+                    rep.count("requests_with_a_quoted_token");
+                }
                 let (api, who, valid): (Api, String, bool) = match &actor {
                     Actor::User(u) => {
                         let mut a = server.api();
-                        a.token = tokens[u].token.clone();
+                        // the server accepts the token with and without the double quotes of the JSON string the
+                        // login route returns; both spellings are the same session
+                        a.token = if quoted { tokens[u].token.clone().map(|t| format!("\"{t}\"")) } else { tokens[u].token.clone() };
                         (a, u.clone(), true)
                     }
                     Actor::Admin => {
@@ -399,9 +410,9 @@ impl CaseEngine for C24 {
                         (a, "<garbage>".into(), false)
                     }
                     Actor::LoggedOut(u) | Actor::Deleted(u) => {
-                        let i = dead.iter().position(|d| matches!(&d.1, Actor::LoggedOut(x) | Actor::Deleted(x) if x == u)).unwrap_or(0);
+                        let i = dead_pick.min(dead.len() - 1);
                         let mut a = server.api();
-                        a.token = dead[i].0.token.clone();
+                        a.token = if quoted { dead[i].0.token.clone().map(|t| format!("\"{t}\"")) } else { dead[i].0.token.clone() };
                         (a, format!("<dead:{u}>"), false)
                     }
                 };
@@ -483,10 +494,10 @@ impl CaseEngine for C24 {
                         if let Actor::User(u) = &actor {
                             if rng.chance(1, 3) {
                                 let mut a = server.api();
-                                a.token = tokens[u].token.clone();
+                                a.token = if quoted { tokens[u].token.clone().map(|t| format!("\"{t}\"")) } else { tokens[u].token.clone() };
                                 let old = {
                                     let mut o = server.api();
-                                    o.token = a.token.clone();
+                                    o.token = tokens[u].token.clone();
                                     o
                                 };
                                 let s = a.user_logout().await;
@@ -775,7 +786,11 @@ fn gen_batch(rng: &mut Rng, twin: &DbMemory) -> Vec<QueryType> {
     let mut b: Vec<QueryType> = vec![];
     let node_count = twin.exec(QueryBuilder::select().node_count().query()).map(|r| r.result).unwrap_or(0);
     for i in 0..n {
-        let q: QueryType = match rng.below(16) {
+        let q: QueryType = match rng.below(19) {
+            // failing read-only queries (also as the last query of a batch, after all its mutations)
+            16 => QueryBuilder::select().ids("alias_that_does_not_exist").query().into(),
+            17 => QueryBuilder::select().ids(format!(":{}", i + 2 + rng.usize(3))).query().into(),
+            18 => QueryBuilder::search().from("alias_that_does_not_exist").query().into(),
             0 | 1 => QueryBuilder::insert().nodes().count(1 + rng.below(2)).values_uniform([("k", rng.below(5) as i64).into()]).query().into(),
             2 => QueryBuilder::insert().nodes().aliases(format!("a{}", rng.below(6))).query().into(),
             3 if i > 0 => {
@@ -799,6 +814,10 @@ fn gen_batch(rng: &mut Rng, twin: &DbMemory) -> Vec<QueryType> {
             _ => QueryBuilder::insert().nodes().count(1).query().into(),
         };
         b.push(q);
+    }
+    // "insert, then read back" with a read that fails
+    if rng.chance(1, 8) {
+        b.push(QueryBuilder::select().ids("alias_that_does_not_exist").query().into());
     }
     b
 }
@@ -1197,8 +1216,10 @@ impl CaseEngine for C26 {
             let alice_root = format!("{data}/alice");
             let mut reader = StraceReader::new(&format!("{dir}/strace.log"));
             let _ = reader.take(&dir); // everything up to here belongs to the setup
-            // live databases of alice: decoded name -> identity
-            let mut live: BTreeMap<String, u64> = BTreeMap::new();
+            // live databases: (owner, decoded name) -> identity
+            let mut live: BTreeMap<(String, String), u64> = BTreeMap::new();
+            let admin_token = admin.token.clone().unwrap_or_default();
+            let plain_names = ["x", "y", "x.bak", "moved", "b", "plain2"];
             let mut next_identity = 1u64;
             // file -> identity that holds it
             let mut held: BTreeMap<String, u64> = BTreeMap::new();
@@ -1207,15 +1228,22 @@ impl CaseEngine for C26 {
             let per_case = args.u64("requests", if args.thorough() { 500 } else { 220 });
             for step in 0..per_case {
                 let use_live = !live.is_empty() && rng.chance(3, 5);
-                let name = if use_live { live.keys().nth(rng.usize(live.len())).cloned().unwrap_or_default() } else { names[rng.usize(names.len())].clone() };
+                let (src_owner, name) = if use_live { live.keys().nth(rng.usize(live.len())).cloned().unwrap_or_default() } else { ("alice".to_string(), names[rng.usize(names.len())].clone()) };
+                // the server admin moves and copies databases between owners (plain names: the admin is not the attacker)
+                let admin_op = use_live && (src_owner != "alice" || rng.chance(1, 4));
+                let dst_owner = if admin_op { ["alice", "bob"][rng.usize(2)].to_string() } else { "alice".to_string() };
                 // a live (decoded) name is only usable in a URL when it needs no encoding
                 if use_live && name.chars().any(|c| !(c.is_ascii_alphanumeric() || "._-".contains(c))) {
                     continue;
                 }
-                let other = names[rng.usize(names.len())].clone();
+                let other = if admin_op { plain_names[rng.usize(plain_names.len())].to_string() } else { names[rng.usize(names.len())].clone() };
                 let kind = kinds[(case + step as usize) % 3];
-                let pick = if use_live { 3 + rng.below(10) } else { rng.below(10) };
+                let pick = if admin_op { 100 + rng.below(5) } else if use_live { 3 + rng.below(10) } else { rng.below(10) };
                 let (op, method, path, payload) = match pick {
+                    100 | 101 => ("admin_rename", "POST", format!("/api/v1/admin/db/{src_owner}/{name}/rename?new_owner={dst_owner}&new_db={other}"), ""),
+                    102 => ("admin_copy", "POST", format!("/api/v1/admin/db/{src_owner}/{name}/copy?new_owner={dst_owner}&new_db={other}"), ""),
+                    103 => ("admin_exec_mut", "POST", format!("/api/v1/admin/db/{src_owner}/{name}/exec_mut"), body.as_str()),
+                    104 => ("admin_backup", "POST", format!("/api/v1/admin/db/{src_owner}/{name}/backup"), ""),
                     0..=4 => ("add", "POST", format!("/api/v1/db/alice/{name}/add?db_type={kind}"), ""),
                     5 => ("backup", "POST", format!("/api/v1/db/alice/{name}/backup"), ""),
                     6 => ("copy", "POST", format!("/api/v1/db/alice/{name}/copy?new_db={other}"), ""),
@@ -1234,7 +1262,7 @@ impl CaseEngine for C26 {
                 };
                 progress(&format!("{op} name={name:?} step={step}"));
                 rep.eval();
-                let (status, _text) = server.raw(method, &path, &token, payload)?;
+                let (status, _text) = server.raw(method, &path, if admin_op { &admin_token } else { &token }, payload)?;
                 let success = (200..300).contains(&status);
                 let dname = percent_decode(&name);
                 let dother = percent_decode(&other);
@@ -1242,31 +1270,33 @@ impl CaseEngine for C26 {
                 rep.distinct_hash(tag(&format!("{class}|{op}|{success}")));
                 rep.count(if success { "requests_accepted" } else { "requests_rejected" });
                 // ---- identities ----
-                let this = live.get(&dname).copied();
+                let this = live.get(&(src_owner.clone(), dname.clone())).copied();
                 let mut acting: Vec<u64> = this.into_iter().collect();
                 let mut created: Option<u64> = None;
                 if success {
                     match op {
                         "add" => {
                             created = Some(next_identity);
-                            live.insert(dname.clone(), next_identity);
+                            live.insert(("alice".to_string(), dname.clone()), next_identity);
                             next_identity += 1;
                             accepted.insert(dname.clone());
                             rep.count(&format!("names_accepted_{class}"));
                         }
-                        "copy" => {
+                        "copy" | "admin_copy" => {
                             created = Some(next_identity);
-                            live.insert(dother.clone(), next_identity);
+                            live.insert((dst_owner.clone(), dother.clone()), next_identity);
                             next_identity += 1;
                             accepted.insert(dother.clone());
+                            rep.count(&format!("{op}_accepted"));
                         }
-                        "rename" => {
-                            if dother != dname {
-                                if let Some(i) = live.remove(&dname) {
-                                    live.insert(dother.clone(), i);
+                        "rename" | "admin_rename" => {
+                            if dother != dname || dst_owner != src_owner {
+                                if let Some(i) = live.remove(&(src_owner.clone(), dname.clone())) {
+                                    live.insert((dst_owner.clone(), dother.clone()), i);
                                     accepted.insert(dother.clone());
                                 }
                             }
+                            rep.count(&format!("{op}_accepted"));
                         }
                         _ => {}
                     }
@@ -1293,7 +1323,8 @@ impl CaseEngine for C26 {
                             continue;
                         }
                         rep.add("file_system_calls_checked", 1);
-                        let inside = p == &alice_root || p.starts_with(&format!("{alice_root}/"));
+                        let in_root = |o: &str| p == &format!("{data}/{o}") || p.starts_with(&format!("{data}/{o}/"));
+                        let inside = in_root(&src_owner) || in_root(&dst_owner);
                         if c.mutating && !inside {
                             let sig = "C26:file_touched_outside_owner_directory".to_string();
                             if fired.insert(sig.clone()) {
@@ -1301,7 +1332,7 @@ impl CaseEngine for C26 {
                             }
                         }
                         if !c.directory && inside {
-                            if c.mutating && (p == &format!("{alice_root}/backups") || p == &format!("{alice_root}/audit")) {
+                            if c.mutating && (p.ends_with("/backups") || p.ends_with("/audit")) && p.matches('/').count() == data.matches('/').count() + 2 {
                                 let sig = "C26:database_file_replaces_reserved_directory".to_string();
                                 if fired.insert(sig.clone()) {
                                     rep.violation(&sig, &format!("{op} with name {name:?} (status {status}) uses {p} as a file: {}", c.line), ctx.clone());
@@ -1309,7 +1340,7 @@ impl CaseEngine for C26 {
                             }
                             match held.get(p) {
                                 Some(h) if !acting.contains(h) && live.values().any(|l| l == h) => {
-                                    let holder = live.iter().find(|(_, v)| *v == h).map(|x| x.0.clone()).unwrap_or_default();
+                                    let holder = live.iter().find(|(_, v)| *v == h).map(|x| format!("{}/{}", x.0.0, x.0.1)).unwrap_or_default();
                                     let sig = "C26:two_databases_share_a_file".to_string();
                                     if fired.insert(sig.clone()) {
                                         rep.violation(&sig, &format!("{op} with name {name:?} (new name {other:?}, status {status}) touched {p} which belongs to the live database {holder:?}: {}", c.line), ctx.clone());
@@ -1326,11 +1357,22 @@ impl CaseEngine for C26 {
                 }
                 // release: files that no longer exist, files of transient and of ended identities
                 if success && (op == "delete" || op == "remove") {
-                    if let Some(i) = live.remove(&dname) {
+                    if let Some(i) = live.remove(&(src_owner.clone(), dname.clone())) {
                         held.retain(|_, v| *v != i);
                     }
                 }
                 held.retain(|p, v| *v != transient && std::path::Path::new(p).exists());
+                // every file a live database holds lies inside the directory of its *current* owner
+                for ((o, n), i) in &live {
+                    for (p, _) in held.iter().filter(|(_, v)| *v == i) {
+                        if !p.starts_with(&format!("{data}/{o}/")) {
+                            let sig = "C26:database_file_outside_its_owners_directory".to_string();
+                            if fired.insert(sig.clone()) {
+                                rep.violation(&sig, &format!("after {op} (status {status}) the database {o}/{n} holds the file {p}, which is not inside {data}/{o}/"), ctx.clone());
+                            }
+                        }
+                    }
+                }
                 rep.max("max_live_databases", live.len() as i64);
                 rep.max("max_files_held", held.len() as i64);
                 // ---- (3) canaries ----
@@ -1345,8 +1387,8 @@ impl CaseEngine for C26 {
             }
             // the model of live names must agree with the server (otherwise the attribution above is unreliable)
             let (_, dbs) = admin.admin_db_list().await.map_err(|e| e.to_string())?;
-            let server_names: BTreeSet<String> = dbs.iter().filter(|d| d.owner == "alice").map(|d| d.db.clone()).collect();
-            let model_names: BTreeSet<String> = live.keys().cloned().collect();
+            let server_names: BTreeSet<(String, String)> = dbs.iter().filter(|d| !(d.owner == "bob" && d.db == "plain")).map(|d| (d.owner.clone(), d.db.clone())).collect();
+            let model_names: BTreeSet<(String, String)> = live.keys().cloned().collect();
             if server_names != model_names {
                 rep.inconclusive(&format!("case {case}: the harness lost track of the live databases: server {server_names:?} model {model_names:?}"));
             }
@@ -1367,6 +1409,7 @@ impl CaseEngine for C26 {
         rep.require("requests_rejected", 20);
         rep.require("file_system_calls_checked", 100);
         rep.require("file_ownership_checks", 50);
+        rep.require("admin_rename_accepted", 3);
         let _ = std::fs::remove_dir_all(args.str("scratch", "/verif/scratch/c26"));
     }
 }
